@@ -80,7 +80,7 @@ claim("C18",
       design_ref="DESIGN.md §5 C18")
 
 claim("C04",
-      text="Proved (24 theorems incl. pins of the module constants and the constants of 25 anchored functions) over a hand-written Lean model of dmrs.from_mrs and mrs.from_dmrs (on the shared semantic core), for all MRSs "
+      text="Proved (25 theorems in three props modules, incl. pins of the module constants and the constants of 25 anchored functions) over a hand-written Lean model of dmrs.from_mrs and mrs.from_dmrs (on the shared semantic core), for all MRSs "
            "with pairwise distinct EP identifiers: every link is justified by the source (role of the start predication; target "
            "is the argument's predication or the first representative of the selected scope; EQ/NEQ by label identity, H for a "
            "handle constraint, HEQ for a direct label; MOD/EQ between representatives of one scope) with no well-formedness "
@@ -90,9 +90,11 @@ claim("C04",
            "(same predication by position), the MRS coming back has distinct EP ids, non-scopal arguments, scopal arguments with "
            "their handle constraints and label sharing are preserved per position. Round 3: the second conversion is stable (same "
            "nodes, top, index, set of links; second_conversion_stable) from hypotheses on the source MRS alone, the positional "
-           "agreement of representatives (RepsAgree) being now a theorem (repsAgree_of_space) and no longer a run-time flag. The single variable bijection with the stripped "
-           "source (isomorphism) is decided by the direct oracle on the real code (mrs.is_isomorphic plus an independent "
-           "bijection search).",
+           "agreement of representatives (RepsAgree) being now a theorem (repsAgree_of_space) and no longer a run-time flag. Round 4: the single variable map (roundtrip_iso_partial: "
+           "there is an injective, sort-preserving f with IsoVia f (strip m) m2, mapping labels, arguments role by role, handle "
+           "constraints, top, index and intrinsic-variable properties) is proved for the fragment without quantifiers and without "
+           "arguments under handle constraints; in general the bijection with the stripped source is decided by the direct oracle "
+           "on the real code (mrs.is_isomorphic plus an independent bijection search).",
       note="The stability theorem holds under BaseIdsDistinct, RolesOk (no role named MOD), IVSorts (x/e/i/p/u), RstrLinked, "
            "ScopesHeld (every scope connected by EQ links: fails exactly on the F08 class) and NoDescArg (no predication takes a "
            "scopal descendant of a scope-mate as non-scopal argument: false on about 1% of generated in-space cases, which are "
@@ -145,7 +147,7 @@ claim("C12",
       design_ref="DESIGN.md §5 C12")
 
 claim("C09",
-      text="Lean theorems (32, incl. pins of the source constants) over an executable model of tsdb.write/_get_paths/write_database prove, for all histories and all "
+      text="Lean theorems (36, incl. pins of the source constants) over an executable model of tsdb.write/_get_paths/write_database (raw and typed/autocast sources, the latter through C08's cast/format) prove, for all histories and all "
            "start states (including both physical forms with arbitrary mtimes), that the read equals the last overwrite followed "
            "by the accepted later appends, and that exactly one file exists after any accepted write, compressed iff requested "
            "and non-empty (so stale data cannot resurface). They also prove that failed writes change nothing, that "
@@ -161,7 +163,7 @@ claim("C09",
            "3 over 6 start states; 34085 thorough). 'A rejected request changes nothing' holds in the model by construction; on "
            "the real code it is checked by a byte digest after every rejected step. Schema text round trip, select_from/tsdb.open "
            "interfaces, flags and comments: direct oracle only. 'Preserves every record' is read modulo the documented "
-           "replacement of an empty cell by Field.default. Relation names dot-free; source databases opened with autocast=False.",
+           "replacement of an empty cell by Field.default. Relation names dot-free. Typed (autocast) sources are modelled through the C08 cast/format and generated with falsy and edge values (0, 0.0, -1, epoch dates, '0' strings); cases with float columns are decided by the direct oracle only.",
       technique="Lean 4 proof over executable model + differential correspondence with the Python implementation",
       design_ref="DESIGN.md §5 C09")
 
